@@ -76,4 +76,37 @@ MUTANTS = [
       E("ir/inst_binary.go", '	fmt.Fprintf(buf, " %s, %s", inst.X, inst.Y.Ident())', '	fmt.Fprintf(buf, " %s %s, %s", inst.Y.Type(), inst.Y.Ident(), inst.X.Ident())', nth=2)),
     M("opc-wrong-mnemonic", "C01", ["OPC", "ir.InstFSub"],
       E("ir/inst_binary.go", '	buf.WriteString("fsub")', '	buf.WriteString("fadd")')),
+    # ---- C03: constructors and builders ---------------------------------------
+    M("ctor-swapped-fields", "C03", ["CTOR-1", "NewSub"],
+      E("ir/inst_binary.go", "	inst := &InstSub{X: x, Y: y}", "	inst := &InstSub{X: y, Y: x}")),
+    M("ctor-dropped-param", "C03", ["CTOR-1", "NewAtomicRMW", "ordering"],
+      E("ir/inst_memory.go", "	inst := &InstAtomicRMW{Op: op, Dst: dst, X: x, Ordering: ordering}", "	inst := &InstAtomicRMW{Op: op, Dst: dst, X: x, Ordering: enum.AtomicOrderingSequentiallyConsistent}")),
+    M("ctor-no-type-prefill", "C03", ["CTOR-2", "NewICmp"],
+      E("ir/inst_other.go", "	inst := &InstICmp{Pred: pred, X: x, Y: y}\n	// Compute type.\n	inst.Type()\n", "	inst := &InstICmp{Pred: pred, X: x, Y: y}\n")),
+    M("builder-swapped-args", "C03", ["CTOR-3", "NewICmp"],
+      E("ir/block_other.go", "	inst := NewICmp(pred, x, y)", "	inst := NewICmp(pred, y, x)")),
+    M("builder-forgets-append", "C03", ["CTOR-3", "NewLoad"],
+      E("ir/block_memory.go", "	inst := NewLoad(elemType, src)\n	block.Insts = append(block.Insts, inst)\n", "	inst := NewLoad(elemType, src)\n	_ = append(block.Insts, inst)\n")),
+    M("builder-no-parent", "C03", ["CTOR-3", "NewBlock"],
+      E("ir/func_block.go", "	block.Parent = f\n", "")),
+    # ---- C15: operands and successors -----------------------------------------
+    M("ops-missing-slot", "C15", ["OPS-1", "ir.InstSelect", "ValueFalse"],
+      E("ir/inst_other.go", "	return []*value.Value{&inst.Cond, &inst.ValueTrue, &inst.ValueFalse}", "	return []*value.Value{&inst.Cond, &inst.ValueTrue}")),
+    M("ops-bundle-inputs-dropped", "C15", ["OPS-1", "ir.TermInvoke", "OperandBundles"],
+      E("ir/terminator.go", "	for i := range term.OperandBundles {\n		for j := range term.OperandBundles[i].Inputs {\n			ops = append(ops, &term.OperandBundles[i].Inputs[j])\n		}\n	}\n", "", nth=0)),
+    M("ops-range-copy", "C15", ["OPS-2", "ir.InstPhi"],
+      E("ir/inst_other.go", "	for i := range inst.Incs {\n		ops = append(ops, &inst.Incs[i].X)\n		ops = append(ops, &inst.Incs[i].Pred)\n	}", "	for _, inc := range inst.Incs {\n		inc := *inc\n		ops = append(ops, &inc.X)\n		ops = append(ops, &inc.Pred)\n	}")),
+    M("succs-missing-target", "C15", ["OPS-3", "ir.TermCondBr"],
+      E("ir/terminator.go", "		term.Successors = []*Block{term.TargetTrue.(*Block), term.TargetFalse.(*Block)}", "		term.Successors = []*Block{term.TargetTrue.(*Block)}")),
+    M("succs-wrong-order", "C15", ["OPS-3", "ir.TermInvoke"],
+      E("ir/terminator.go", "		term.Successors = []*Block{term.NormalRetTarget.(*Block), term.ExceptionRetTarget.(*Block)}", "		term.Successors = []*Block{term.ExceptionRetTarget.(*Block), term.NormalRetTarget.(*Block)}")),
+    # ---- C16: type equality ----------------------------------------------------
+    M("eq-vector-ignores-len", "C16", ["EQ-1", "VectorType", "Len"],
+      E("ir/types/types.go", "		if t.Len != u.Len {\n			return false\n		}\n		return t.ElemType.Equal(u.ElemType)\n	}\n	return false\n}\n\n// String returns the string representation of the vector type.", "		return t.ElemType.Equal(u.ElemType)\n	}\n	return false\n}\n\n// String returns the string representation of the vector type.")),
+    M("eq-int-no-kind-guard", "C16", ["EQ-2", "IntType"],
+      E("ir/types/types.go", "	if u, ok := u.(*IntType); ok {\n		return t.BitSize == u.BitSize\n	}\n	return false", "	return t.LLString() == u.LLString()")),
+    M("eq-struct-name-cut-late", "C16", ["EQ-3", "StructType"],
+      E("ir/types/types.go", "		if len(t.TypeName) > 0 || len(u.TypeName) > 0 {\n			// Identified struct types are uniqued by type names, not by structural\n			// identity.\n			//\n			// t or u is an identified struct type.\n			return t.TypeName == u.TypeName\n		}\n", "")),
+    M("eq-func-ignores-variadic", "C16", ["EQ-1", "FuncType", "Variadic"],
+      E("ir/types/types.go", "		return t.Variadic == u.Variadic", "		return true")),
 ]
